@@ -276,7 +276,7 @@ def property_oracle(ctx, case, o):
     elif accepted and o['model'].get('sig_answer') is False:
         # accepted although the signature on the wire does not verify, with the certificate's key, over the
         # bytes the RFCs prescribe for this transcript (computed by the harness, not by the code under test)
-        key = 'accepted-without-valid-signature:%s' % o['site']
+        key = 'accepted-without-valid-signature:%s%s' % (o['site'], ':sslv3' if tuple(o['ver']) == (3, 0) else '')
         what = ('%s endpoint accepted (%s, %s, key %s) but the signature sent does not verify over the RFC verify-bytes of '
                 'this transcript' % (o['verifier'], o['ver'], o['how'], o['key']))
     else:
@@ -287,6 +287,7 @@ def property_oracle(ctx, case, o):
         elif not o['closed'] and peer_id:
             key = 'identity-left-on-open-connection:%s:%s' % (o['site'], o['how'])
             what = 'call raised but the connection stays open with the unproved identity recorded'
+    o['_oracle_key'] = key
     if key is None:
         return False
     rep = {'case': {k: v for k, v in case.items() if not k.startswith('_')}, 'observed': jobs({k: v for k, v in o.items() if k != 'model'}),
@@ -368,13 +369,18 @@ def run(ctx):
             continue
         if o.get('skip'):
             continue
-        good.append((c, o))
         ctx.count('live:' + o['site'], 1, [(o['site'], tuple(o['ver']), o['key'], c.get('dc'), c.get('server_key'), str(c.get('scheme')), o['how'], o['code'])],
-                  sample=jobs({k: v for k, v in o.items() if k != 'model'}) if len(good) % 131 == 1 else None)
+                  sample=jobs({k: v for k, v in o.items() if k != 'model'}) if len(good) % 131 == 0 else None)
         if o['code'] != 0 and (o['ident']['client'] or o['ident']['server'] or o['ident']['srp']):
             ctx.count('residual-identity-on-closed-failed-connection', 1, [(o['site'], o['how'])])
         if property_oracle(ctx, c, o):
             found = True
+        elif o.get('_oracle_key') is not None:
+            # a KNOWN finding: the code deviates from the property on this input, so the (RFC-faithful) oracle
+            # answers cannot reproduce its verdict -- the case is reported above and left out of the model comparison
+            ctx.count('known-finding-cases-excluded-from-model-comparison', 1, [o['_oracle_key']])
+            continue
+        good.append((c, o))
     # ---- model on the observed oracle answers
     if res['model_ok'] and tie_broken is None:
         lits = [caselit(o) for _, o in good]
